@@ -602,7 +602,9 @@ def scenario_toml(c, decide, concrete=None):
     # booleans: all true, all false, alternating, alternating the other way (every parameter sees both values)
     pattern = decide('boolean pattern', 4) if symbolic else 0
     nbool = [0]
-    with patched_fs(fs), shims.patched(*([(bp, 'tk', TomlModel())] if symbolic else [])):
+    # (the tomlkit installed in this sandbox refuses the multi-line comments the library attaches -- the pinned parameter-file
+    # test fails for that reason --, so the replay also uses the document model, with plain numbers)
+    with patched_fs(fs), shims.patched((bp, 'tk', TomlModel())):
         for key, tup in list(p1.all_parameters_dict.items()):
             checks = [f.__name__ for f in (tup.check or ())]
             nm = f'{key.section}.{key.name}'
